@@ -722,7 +722,7 @@ func (c *Ctx) c19RunProcJobs(jobs []*procJob) {
 	raceBin := c.KnutBin + ".race"
 	dir := filepath.Join(c.WorkDir, "proc")
 	os.MkdirAll(dir, 0o755)
-	parallel(len(jobs), 8, func(i int) {
+	parallel(len(jobs), 12, func(i int) {
 		jb := jobs[i]
 		jd := filepath.Join(dir, fmt.Sprintf("%s%d", jb.Stream, jb.Index))
 		os.MkdirAll(jd, 0o755)
@@ -1199,7 +1199,7 @@ type loaderJob struct {
 }
 
 func (c *Ctx) c19Loader() {
-	n := c.N(320, 4000)
+	n := c.N(320, 1600)
 	kinds := []string{"valid", "valid", "valid", "syntax", "model", "missing", "cycle", "dag"}
 	var jobs []*loaderJob
 	for i := 0; i < n; i++ {
@@ -1221,7 +1221,7 @@ func (c *Ctx) c19Loader() {
 	}
 	raceBin := c.KnutBin + ".race"
 	dir := filepath.Join(c.WorkDir, "loader")
-	parallel(len(jobs), 8, func(k int) {
+	parallel(len(jobs), 12, func(k int) {
 		jb := jobs[k]
 		jd := filepath.Join(dir, itoa(jb.Index))
 		os.MkdirAll(jd, 0o755)
@@ -1329,12 +1329,12 @@ func runC19(c *Ctx) {
 	c.Extra["seq_s"] = time.Since(t0).Seconds()
 	t0 = time.Now()
 	if !c.Replay || c.OnlyStr == "trace" {
-		c.c19Proc("trace", false, c.N(100, 1500), c.N(5, 6), c.N(2, 3))
+		c.c19Proc("trace", false, c.N(100, 500), c.N(5, 6), c.N(2, 3))
 	}
 	c.Extra["trace_s"] = time.Since(t0).Seconds()
 	t0 = time.Now()
 	if !c.Replay || c.OnlyStr == "race" {
-		c.c19Proc("race", true, c.N(24, 150), c.N(7, 16), c.N(2, 5))
+		c.c19Proc("race", true, c.N(24, 80), c.N(7, 10), c.N(2, 3))
 	}
 	c.Extra["race_s"] = time.Since(t0).Seconds()
 	t0 = time.Now()
